@@ -650,16 +650,18 @@ example :
 /-! ## round 7: the history fold over the builders, discrete forms, soft constraints, removal, bounds, relabelled constraints -/
 
 /-- **History-level refinement, extended.**  `specStepAll` is the specification's step on the list of label-keyed polynomials
-    for 27 of the 30 `Cqm.Op` constructors: everything `specStep` covers (now with SOFT `add_constraint` from an iterable too),
+    for 29 of the 30 `Cqm.Op` constructors (and the SPIN branch of the 30th, `flip_variable`): everything `specStep` covers (now with SOFT `add_constraint` from an iterable too),
     plus `add_variable` (given or generated label, stored bounds), `set_objective(model)`, `add_constraint(model | comparison)` hard and soft, copied or moved (`copy=` does not
     appear in the specification: the two paths denote the same polynomial), the three `add_discrete` forms (the constraint is
     the one-hot equality of the listed variables, marked), `remove_variable`, `spin_to_binary`, `set_lower_bound` /
-    `set_upper_bound`, `relabel_constraints` and `deepcopy`.  From ANY reachable state (`pre` arbitrary), along ANY list of such
+    `set_upper_bound`, `change_vartype` (`LCqm.changeVartype`: the five accepted type changes as coded, each a substitution and / or
+    a change of the variable's info), `flip_variable` of a SPIN variable, `relabel_constraints` and `deepcopy`.  From ANY reachable state (`pre` arbitrary), along ANY list of such
     operations whose calls all return normally, with model arguments well formed and free of BINARY/SPIN self-loops (true of
     every BQM / QM), the abstraction of the model's state is the fold of the specification.
-    Gap (hence `_partial`): `flip_variable` (its BINARY branch clears discrete marks by the index-level `is_discrete`),
-    `change_vartype` (three-way case split), `relabel_variables` (per-field statement) keep their per-step statements
-    (`refines_flipVariable`, `refines_changeVartype`, `relabel_refines`) and may be interleaved through `pre`. -/
+    Gap (hence `_partial`): the BINARY branch of `flip_variable` (it clears the mark of the discrete constraints containing the
+    variable, decided by the index-level `is_discrete` — `is_linear` = no STORED interaction — which is not a function of the
+    label-keyed polynomials) and `relabel_variables` (per-field statement `relabel_refines`) keep their per-step statements
+    and may be interleaved through `pre`. -/
 theorem history_refines_builders_partial (pre ops : List Cqm.Op) (hpre : ∀ op ∈ pre, OpOK op) (hops : ∀ op ∈ ops, OpOK2 op)
     (hsucc : Succeeds (({} : Cqm).run pre) ops) (s' : LCqm)
     (hspec : specRunAll (absCqm (({} : Cqm).run pre)) ops = some s') :
@@ -701,7 +703,8 @@ example :
     let mi : Cqm.ModelIn := { vars := [.str "y", .str "s"], info := [(.binary, 0, 1), (.spin, -1, 1)], lin := [1, -2], quad := [(1, 0, 3)], off := 1 }
     let ops : List Cqm.Op := [.addVariable .integer none none (some 7), .addConstraintModel mi .ge 0 (.str "m") false (some 2) 0,
                               .addDiscreteVars [.str "y", .str "z"] (.str "d") true,
-                              .setUpperBound (.str "i") 4, .relabelConstraints [(.str "c", .str "c'")], .spinToBinary,
+                              .setUpperBound (.str "i") 4, .changeVartype .binary (.str "s"), .changeVartype .spin (.str "s"),
+                              .flipVariable (.str "s"), .relabelConstraints [(.str "c", .str "c'")], .spinToBinary,
                               .addConstraintTerms [⟨[.str "i"], 1⟩] .le 2 (.str "soft") (some 3) 0,
                               .removeVariable (.str "s"), .deepcopy]
     (specRunAll (absCqm demo) ops).isSome = true
